@@ -66,7 +66,44 @@ Theorem c16_circuit_bin_capacity_counts_free_sites : forall bs margin rows cells
   nth_error2 (gcap g) i j = Some (count_sites (covered (clip_rows margin segs)) (bin_region px py)).
 Proof. exact circuit_bin_capacity_counts_free_sites. Qed.
 
+(* [F] finding F28, repaired fromIspdCircuit (density_grid.cpp:45-51): when NO free row segment survives the clipping
+   (rows covered by fixed obstructions, or only pieces not wider than twice the margin left) the grid has the limits of
+   the grid over the bounding box R of the circuit's rows (Circuit::computePlacementArea) and every bin has capacity 0
+   -- which is the number of free sites: c16_circuit_bin_capacity_counts_free_sites above holds in this case too.
+   Before the repair the grid was make_grid bs []: one empty bin at the origin *)
+Theorem c16_circuit_grid_without_free_space : forall bs margin rows cells,
+  clip_rows margin (map rr (compute_rows_circuit rows [] cells)) = [] ->
+  let g := grid_of_circuit bs margin rows cells in
+  let R := placement_area (map rr rows) in
+  limX g = limX (make_grid bs [R]) /\ limY g = limY (make_grid bs [R]) /\
+  total_capacity g = 0 /\
+  (forall i j px py, nth_error (pairs (limX g)) i = Some px -> nth_error (pairs (limY g)) j = Some py ->
+     nth_error2 (gcap g) i j = Some 0).
+Proof. exact circuit_grid_without_free_space. Qed.
+
+(* [F] ... and its limits tile R without gap or overlap (strictly increasing when bs >= 1 and R has extent) *)
+Theorem c16_circuit_grid_without_free_space_tile : forall bs margin rows cells, Forall proper (map rr rows) ->
+  clip_rows margin (map rr (compute_rows_circuit rows [] cells)) = [] ->
+  let g := grid_of_circuit bs margin rows cells in
+  let R := placement_area (map rr rows) in
+  (hdZ (limX g) = minX R /\ lastZ (limX g) = maxX R /\ chainZ (limX g) /\ (1 <= bs -> 1 <= rwidth R -> schainZ (limX g))) /\
+  (hdZ (limY g) = minY R /\ lastZ (limY g) = maxY R /\ chainZ (limY g) /\ (1 <= bs -> 1 <= rheight R -> schainZ (limY g))).
+Proof. exact circuit_grid_without_free_space_tile. Qed.
+
 (* ---------------------------------------------------------------- 3. the hierarchy of views *)
+
+(* [F] the grid of EVERY circuit (with or without free space) has a well-formed hierarchy, and every history of
+   refine/coarsen/Redistribute steps on it keeps the partition invariant (c16_partition_invariant is the same statement
+   for make_grid bs regs, which the grid of a circuit without free space is not) *)
+Theorem c16_circuit_grid_hierarchy_exists : forall bs margin rows cells,
+  exists h, make_hier (grid_of_circuit bs margin rows cells) = Some h /\
+            hgrid h = grid_of_circuit bs margin rows cells /\ hier_wf h.
+Proof. exact circuit_grid_hierarchy_exists. Qed.
+
+Theorem c16_circuit_partition_invariant : forall bs margin rows cells d ops h s',
+  make_hier (grid_of_circuit bs margin rows cells) = Some h ->
+  run_ops h (length d) (init_state h d) ops = Some s' -> inv h d s' /\ partition_okb h d s' = true.
+Proof. exact circuit_partition_invariant. Qed.
 
 (* [F] setupHierarchy terminates within its fuel on every grid and yields a well-formed hierarchy *)
 Theorem c16_hierarchy_exists : forall bs regs,
@@ -337,6 +374,31 @@ Example c16_ex_update_history : exists h s',
   partition_okb h [6; 0; 18; 4; 14; 0; 2] s' = true /\ partition_okb h [6; 0; 18; 0; 14; 0; 2] s' = false.
 Proof. eexists. eexists. vm_compute. repeat split; reflexivity. Qed.
 
+(* a circuit without free space: the first row is covered by an obstruction, of the second one a piece 17 wide remains,
+   which the margin 9 removes.  The grid covers the rows' bounding box [50,150]x[20,40] in 4x1 bins of capacity 0; the
+   hierarchy exists and a history on it satisfies the checker *)
+Definition nf_rows := [ {| rr := {| minX := 50; maxX := 150; minY := 20; maxY := 30 |}; ro := Orient.oN |};
+                        {| rr := {| minX := 50; maxX := 150; minY := 30; maxY := 40 |}; ro := Orient.oFS |} ].
+Definition nf_cells : list (Z * Z * Z * Z * Orient.orient * bool * bool) :=
+  [ (40, 15, 200, 15, Orient.oN, true, true); (67, 30, 90, 10, Orient.oN, true, true);
+    (60, 20, 4, 10, Orient.oN, false, false) ].
+
+Example c16_ex_without_free_space :
+  clip_rows 9 (map rr (compute_rows_circuit nf_rows [] nf_cells)) = [] /\
+  Forall proper (map rr nf_rows) /\ disjoint_regions (map rr nf_rows) /\
+  grid_of_circuit 25 9 nf_rows nf_cells =
+    {| limX := [50; 75; 100; 125; 150]; limY := [20; 40]; gcap := [[0]; [0]; [0]; [0]] |} /\
+  exists h s', make_hier (grid_of_circuit 25 9 nf_rows nf_cells) = Some h /\
+    run_ops h 3 (init_state h [40; 0; 12]) [RefineX; Redist [(0, 0); (1, 0)]%nat [[2]; [0]]%nat; RefineX] = Some s' /\
+    bcells s' = [[[2]]; [[]]; [[0]]; [[]]]%nat /\ partition_okb h [40; 0; 12] s' = true.
+Proof.
+  split; [vm_compute; reflexivity|]. split; [repeat constructor; vm_compute; discriminate|]. split.
+  - simpl. split; [|split; [|exact I]].
+    + intros r' x y [<-|[]] H1 H2. unfold inr in *. simpl in *. rewrite !andb_true_iff in *. lia.
+    + intros r' x y [].
+  - split; [vm_compute; reflexivity|]. eexists. eexists. vm_compute. repeat split; reflexivity.
+Qed.
+
 Print Assumptions c16_subdivisions_tile.
 Print Assumptions c16_grid_limits_tile.
 Print Assumptions c16_bin_capacity_is_region_area.
@@ -344,6 +406,10 @@ Print Assumptions c16_bin_capacity_counts_free_sites.
 Print Assumptions c16_total_capacity_is_region_area.
 Print Assumptions c16_side_margin_sites.
 Print Assumptions c16_circuit_bin_capacity_counts_free_sites.
+Print Assumptions c16_circuit_grid_without_free_space.
+Print Assumptions c16_circuit_grid_without_free_space_tile.
+Print Assumptions c16_circuit_grid_hierarchy_exists.
+Print Assumptions c16_circuit_partition_invariant.
 Print Assumptions c16_hierarchy_exists.
 Print Assumptions c16_hierarchy_levels.
 Print Assumptions c16_level_limits_tile.
